@@ -1,20 +1,36 @@
 #!/usr/bin/env python3
 """C01 - verified layers never return bytes that do not match the TOC-pinned digests (Verify.tla)."""
-import os, sys, json
+import os, sys, json, time
 sys.path.insert(0, os.path.dirname(os.path.dirname(os.path.abspath(__file__))))
 from vlib import *
 
 OV_READER = {"fs/reader/verif_verify.go": "fs/reader/verif_verify.go",
              "fs/reader/verif_verify_test.go": "fs/reader/verif_verify_test.go"}
-OV_LAYER = {"fs/layer/verif_verifylayer_test.go": "fs/layer/verif_verifylayer_test.go"}
+OV_LAYER = {"fs/layer/verif_verifylayer_test.go": "fs/layer/verif_verifylayer_test.go",
+            "fs/reader/verif_verify.go": "fs/reader/verif_verify.go"}
 PROPS = ["MountImpliesToc", "ServedAreGood", "NoBadStaysCached", "FailedReadLeavesNothing"]
 STAGES = set((os.environ.get("C01_STAGES") or "mc,negctl,replay,layer,free,sweep").split(","))
 
-GEN_READER = {"NRd": "1", "MaxVerify": "1"}
-GEN_READER_THOROUGH = {}
+GEN_READER = {"NRd": "1", "MaxVerify": "1", "Tocs": '{"D"}', "Kinds": '{"s"}', "Args": '{"D"}'}
+GEN_READER_X = {"NWk": "1", "NRd": "1", "MaxVerify": "1"}      # altered TOC / wrong digest / broken streams, one worker
+GEN_READER_X_THOROUGH = {"NWk": "1", "NRd": "2", "MaxVerify": "2", "MaxAlter": "2"}
+GEN_READER_THOROUGH = {"NRd": "1", "MaxVerify": "1"}
 GEN_PASS = {"NWk": "1", "NRd": "2", "MaxVerify": "1", "Tocs": '{"D"}', "Args": '{"D"}', "WithPass": "TRUE", "WithTry": "FALSE", "Kinds": '{"s"}'}
 GEN_LAYER = {"NWk": "0", "NRd": "2", "MaxAlter": "1", "MaxVerify": "3", "AtomicVerify": "TRUE", "WithSkip": "TRUE", "WithTry": "FALSE"}
 GEN_LAYER_THOROUGH = {"NWk": "0", "NRd": "3", "MaxAlter": "2", "MaxVerify": "3", "AtomicVerify": "TRUE", "WithSkip": "TRUE", "WithTry": "FALSE"}
+
+
+def report_race(run, out, pkg, mode):
+    """A race on the state the property is about (reader.go / layer.go) is a violation; a race inside the driver is a driver bug."""
+    m = re.search(r"WARNING: DATA RACE\n(?:.*\n){0,60}", out)
+    text = m.group(0) if m else out[-6000:]
+    frames = re.findall(r"\n      (/\S+?):(\d+)", text)
+    in_code = [f for f, _ in frames if ("/fs/reader/" in f or "/fs/layer/" in f or "/cache/" in f) and "verif_" not in os.path.basename(f)]
+    if in_code:
+        run.violation("datarace:%s:%s:%s" % (pkg, mode, os.path.basename(in_code[0])),
+                      "data race reported in %s under the %s driver" % (pkg, mode), {"log": text})
+    else:
+        raise Inconclusive("data race inside the driver itself (%s, %s):\n%s" % (pkg, mode, text[:3000]))
 
 
 def mon_line(mr):
@@ -85,22 +101,25 @@ def gen_walks(run, name, ov, maxlen, extra):
 def check(run):
     thorough = run.tier == "thorough"
     run.cov["rule"] = ("replay: walks covering every edge of the TLC state graph of Verify.tla (generation configs: two readAndCache workers x VerifyTOC x "
-                       "reads x one alteration with gates; passthrough with a directory cache; layer-level Verify/SkipVerify histories), stepped through a real "
-                       "VerifiableReader / layer over real eStargz blobs (gzip level 0 and 9, zstd:chunked) whose source is patched by the concretiser; "
-                       "free run: Cache() x2 + VerifyTOC + 4 readers + alterations under -race; sweep: one history per bit flip / truncation / member substitution / "
-                       "member swap / re-serialised TOC; non-trivial = trace contains a read through a verified mount; distinct by hash")
+                       "reads x one alteration with gates; one worker with altered TOC / wrong digest / broken streams; passthrough with a directory cache; "
+                       "layer-level Verify/SkipVerify histories), stepped through a real VerifiableReader / layer over real eStargz blobs (gzip level 0 and 9, "
+                       "zstd:chunked) whose source is patched by the concretiser; free run: Cache() x2 + VerifyTOC + 4 readers + alterations under -race; "
+                       "sweep: one history per bit flip / truncation / member substitution / member swap / re-serialised TOC; "
+                       "non-trivial = trace contains a read through a mounted layer; distinct by hash")
     run.assumptions += [
         "chunk values abstracted to g (bytes the TOC records) / s (other bytes, stream valid) / k (stream broken); reads are whole chunks",
         "the uncompressed chunk cache is not tampered with at rest: a cache hit is served unverified by design (alterations enter through the blob source: registry, mirror, compressed-blob cache)",
         "concurrent Mount calls racing on layer.r / reader.verify of one layer object are not modelled (Verify/SkipVerify calls on one layer are sequential)",
         "free-run and sweep traces are decided by the monitor only (no conformance spec of the free interleaving)",
         "ground truth of the TOC in altered blobs (sweep): 'does not hash to D' only when the driver can extract it and its digest differs",
+        "in-memory metadata store only (the db store of the cmd module is not driven)",
     ]
+    t0 = time.time()
     # ------------------------------------------------------------------ M
     if "mc" in STAGES:
-        run.tlc_mc("Verify", "Verify_mc.cfg", {"NRd": "1"} if not thorough else None, workers=4 if not thorough else 8, timeout=2400,
+        run.tlc_mc("Verify", "Verify_mc.cfg", None if thorough else {"NRd": "1"}, workers=8 if thorough else 4, timeout=2400,
                    name="Verify_mc.cfg" + ("" if thorough else " NRd=1"))
-        run.tlc_mc("Verify", "Verify_mc_layer.cfg", {"NRd": "2", "NWk": "0"} if not thorough else None, workers=4 if not thorough else 8, timeout=2400,
+        run.tlc_mc("Verify", "Verify_mc_layer.cfg", None if thorough else {"NRd": "2", "NWk": "0"}, workers=8 if thorough else 4, timeout=2400,
                    name="Verify_mc_layer.cfg" + ("" if thorough else " NRd=2 NWk=0"))
     if "negctl" in STAGES:
         small = {"NRd": "1"}
@@ -110,67 +129,71 @@ def check(run):
         run.tlc_negctl("Verify", "Verify_mc.cfg", dict(small, PassVerifies="FALSE"), ["ServedAreGood", "NoBadStaysCached"], drop=("TypeOK",))
         run.tlc_negctl("Verify", "Verify_mc_layer.cfg", {"RecheckCachedLayer": "FALSE", "NWk": "0", "NRd": "2"},
                        ["MountImpliesToc", "ServedAreGood", "NoBadStaysCached"], drop=("TypeOK",))
+    log("[time] model checking done at %.0fs" % (time.time() - t0))
     exhaustive = True
-    # ------------------------------------------------------------------ R/G reader level
-    if "replay" in STAGES:
-        jobs = []
-        for name, ov, dirc in [("gated", GEN_READER_THOROUGH if thorough else GEN_READER, False), ("pass", GEN_PASS, True)]:
-            steps, tocs, st = gen_walks(run, name, ov, 34, 150 if thorough else 30)
+    # ------------------------------------------------------------------ generation
+    jobs, ljob = [], None
+    if {"replay", "gated", "gated1", "pass"} & STAGES:
+        for name, ov, dirc in [("gated", GEN_READER_THOROUGH if thorough else GEN_READER, False),
+                               ("gated1", GEN_READER_X_THOROUGH if thorough else GEN_READER_X, False),
+                               ("pass", GEN_PASS, True)]:
+            if "replay" not in STAGES and name not in STAGES:
+                continue
+            steps, tocs, st = gen_walks(run, name, ov, 34, 150 if thorough else 20)
             exhaustive = exhaustive and st["covered"] == st["edges"]
             jobs.append({"name": name, "ov": ov, "out": os.path.join(run.scratch, "replay_%s.ndjson" % name), "dircache": dirc,
                          "tocs": tocs, "walks": steps})
-        inp = os.path.join(run.scratch, "walks.json")
-        write_json(inp, jobs)
-        rc, out = run.go_driver("", "./fs/reader/", OV_READER, "^TestVerifC01Replay$", env={"VERIF_IN": inp}, timeout=2400)
-        if rc != 0:
-            m = re.search(r"WARNING: DATA RACE\n(?:.*\n){0,40}", out)
-            run.violation("datarace:fs/reader:replay", "data race reported in fs/reader under the gated driver", {"log": m.group(0) if m else out[-6000:]})
-        for j in jobs:
-            ok = validate(run, j["out"] + ".memory", "replay-" + j["name"], j["ov"], j["ov"] if "NC" in j["ov"] else None)
-            if ok:
-                evs = read_ndjson(j["out"] + ".memory")
-                trs = [t for s, t in split_traces(evs) if any(e.get("ev") == "Read" and e.get("res") == "verr" for e in t)]
-                run.add_samples([{"mode": "replay-" + j["name"], "events": [{k: v for k, v in e.items() if k not in ("pf",)} for e in t[:16]]} for t in trs[:1]], limit=2)
-    # ------------------------------------------------------------------ R layer level
     if "layer" in STAGES:
         ov = GEN_LAYER_THOROUGH if thorough else GEN_LAYER
         steps, tocs, st = gen_walks(run, "layer", ov, 30, 100 if thorough else 20)
         exhaustive = exhaustive and st["covered"] == st["edges"]
-        out_l = os.path.join(run.scratch, "replay_layer.ndjson")
+        ljob = {"name": "layer", "ov": ov, "out": os.path.join(run.scratch, "replay_layer.ndjson"), "tocs": tocs, "walks": steps}
+    log("[time] generation done at %.0fs" % (time.time() - t0))
+    # ------------------------------------------------------------------ the drivers
+    free = os.path.join(run.scratch, "free.ndjson")
+    sweep = os.path.join(run.scratch, "sweep.ndjson")
+    env, tests = {}, []
+    if jobs:
+        inp = os.path.join(run.scratch, "walks.json")
+        write_json(inp, jobs)
+        env["VERIF_IN"] = inp
+        tests.append("Replay")
+    if "free" in STAGES:
+        env.update({"VERIF_FREE_OUT": free, "VERIF_FREE_TRACES": "700" if thorough else "70"})
+        tests.append("Free")
+    if "sweep" in STAGES:
+        env.update({"VERIF_SWEEP_OUT": sweep, "VERIF_SWEEP_STRIDE": "3" if thorough else "61"})
+        tests.append("Sweep")
+    if tests:
+        rc, out = run.go_driver("", "./fs/reader/", OV_READER, "^TestVerifC01(%s)$" % "|".join(tests), env=env, timeout=3000)
+        if rc != 0:
+            report_race(run, out, "fs/reader", "+".join(tests))
+    if ljob:
         inp = os.path.join(run.scratch, "walks_layer.json")
-        write_json(inp, [{"name": "layer", "out": out_l, "tocs": tocs, "walks": steps}])
+        write_json(inp, [ljob])
         rc, out = run.go_driver("", "./fs/layer/", OV_LAYER, "^TestVerifC01Layer$", env={"VERIF_IN": inp}, timeout=2400)
         if rc != 0:
-            m = re.search(r"WARNING: DATA RACE\n(?:.*\n){0,40}", out)
-            run.violation("datarace:fs/layer:replay", "data race reported in fs/layer under the history driver", {"log": m.group(0) if m else out[-6000:]})
-        ok = validate(run, out_l, "replay-layer", ov, None)
-        if ok:
-            evs = read_ndjson(out_l)
-            trs = [t for s, t in split_traces(evs) if sum(1 for e in t if e.get("ev") in ("LayerVerify", "LayerSkip")) >= 2]
-            run.add_samples([{"mode": "replay-layer", "events": [{k: v for k, v in e.items() if k not in ("pf",)} for e in t[:12]]} for t in trs[:1]], limit=3)
-    # ------------------------------------------------------------------ T free run + S sweep (monitor only)
-    want = [s for s in ("free", "sweep") if s in STAGES]
-    if want:
-        free = os.path.join(run.scratch, "free.ndjson")
-        sweep = os.path.join(run.scratch, "sweep.ndjson")
-        env = {}
-        if "free" in want:
-            env.update({"VERIF_FREE_OUT": free, "VERIF_FREE_TRACES": "700" if thorough else "140"})
-        if "sweep" in want:
-            env.update({"VERIF_SWEEP_OUT": sweep, "VERIF_SWEEP_STRIDE": "3" if thorough else "29"})
-        rc, out = run.go_driver("", "./fs/reader/", OV_READER, "^TestVerifC01(Free|Sweep)$", env=env, timeout=2400)
-        if rc != 0:
-            m = re.search(r"WARNING: DATA RACE\n(?:.*\n){0,40}", out)
-            run.violation("datarace:fs/reader:free", "data race reported in fs/reader under free-running prefetch / VerifyTOC / reads",
-                          {"log": m.group(0) if m else out[-6000:]})
-        big = {"NC": "6"}
-        if "free" in want:
-            if validate(run, free + ".memory", "free-run", None, big, conformance=False):
-                evs = read_ndjson(free + ".memory")
-                trs = [t for s, t in split_traces(evs) if any(e.get("res") == "verr" for e in t)]
-                run.add_samples([{"mode": "free-run", "events": [{k: v for k, v in e.items() if k not in ("pf",)} for e in t[:10]]} for t in trs[:1]], limit=4)
-        if "sweep" in want:
-            validate(run, sweep + ".memory", "sweep", None, big, conformance=False)
+            report_race(run, out, "fs/layer", "layer-histories")
+    log("[time] drivers done at %.0fs" % (time.time() - t0))
+    # ------------------------------------------------------------------ TLC decides
+    slim = lambda t, n: [{k: v for k, v in e.items() if k not in ("pf", "err", "how")} for e in t[:n]]
+    for j in jobs:
+        path = j["out"] + ".memory"
+        if validate(run, path, "replay-" + j["name"], j["ov"], None):
+            trs = [t for s, t in split_traces(read_ndjson(path)) if any(e.get("ev") == "Read" and e.get("res") == "verr" for e in t)]
+            run.add_samples([{"mode": "replay-" + j["name"], "events": slim(t, 16)} for t in trs[:1]], limit=2)
+    if ljob:
+        if validate(run, ljob["out"], "replay-layer", ljob["ov"], None):
+            trs = [t for s, t in split_traces(read_ndjson(ljob["out"])) if sum(1 for e in t if e.get("ev") in ("LayerVerify", "LayerSkip")) >= 2]
+            run.add_samples([{"mode": "replay-layer", "events": slim(t, 12)} for t in trs[:1]], limit=3)
+    big = {"NC": "6"}
+    if "free" in STAGES:
+        if validate(run, free + ".memory", "free-run", None, big, conformance=False):
+            trs = [t for s, t in split_traces(read_ndjson(free + ".memory")) if any(e.get("res") == "verr" for e in t)]
+            run.add_samples([{"mode": "free-run", "events": slim(t, 10)} for t in trs[:1]], limit=4)
+    if "sweep" in STAGES:
+        validate(run, sweep + ".memory", "sweep", None, big, conformance=False)
+    log("[time] validation done at %.0fs" % (time.time() - t0))
     run.cov["exhaustive"] = exhaustive and {"replay", "layer"} <= STAGES
 
 
